@@ -78,6 +78,8 @@ FUNCS = {
 # nullary words: name -> (go var, type, rank, cpt)
 WORDS = {
     "length": ("lengthOpType", "LENGTH", 8, False),
+    "min": ("minOpType", "MIN", 8, False),
+    "max": ("maxOpType", "MAX", 8, False),
     "not": ("notOpType", "NOT", 8, False),
     "key": ("getKeyOpType", "GET_KEY", 8, False),
     "kind": ("getKindOpType", "GET_KIND", 8, False),
@@ -394,10 +396,7 @@ def layout(ls, style, rng):
                 sep = COMMENT_TEXTS[i % len(COMMENT_TEXTS)]
             else:  # mixed
                 choices = [" ", "  ", "\n", " \n ", " # x\n", "\n#y | (\n "]
-                if p.cls not in ("path", "self"):
-                    choices += ["\t", " \t"]     # TAB directly after a path element or `.`: finding tab-path
-                else:
-                    choices += [" \t"]
+                choices += ["\t", " \t", "\t"]     # TAB is a blank everywhere (after a path element too, since fix 5a4c6b6)
                 if can_join(p, l):
                     choices += ["", ""]
                 sep = rng.choice(choices)
@@ -405,7 +404,7 @@ def layout(ls, style, rng):
         out.append(l.text)
     s = "".join(out)
     if style == "mixed":
-        s = rng.choice(["", " ", "\n", " # lead\n"]) + s + rng.choice(["", " ", "\n", " # trail", "\t" if ls[-1].cls not in ("path", "self") else " "])
+        s = rng.choice(["", " ", "\n", " # lead\n"]) + s + rng.choice(["", " ", "\n", " # trail", "\t"])
     return s
 
 
@@ -489,11 +488,14 @@ DOCS = ['{"a":{"b":2,"c":[1,2,3],"a":"x"},"b":5,"c":[3,1,2],"k1":"s","x-y":null}
 
 KNOWN_INPUTS = {
     "sub-number": ["3-1", "3 -1"],
-    "tab-path": [".a\t| .b"],
-    "minmax-prec": [". | min == 1"],
-    "postfix-accepted": ["1 2 +"],
-    "close-open-accepted": ["1 ) ( | 2"],
 }
+# repaired in /repo (KNOWN_FINDINGS `fixed:` lines); replayed as ordinary cases on every run
+FIXED_CASES = [
+    ("eval-eq", ".a\t| .b", ".a | .b"), ("eval-eq", ".\t| .b", ". | .b"), ("eval-eq", ".a\t.b", ".a .b"),
+    ("tree-eq", ". | min == 1", ". | ((min) == 1)"), ("tree-eq", "max - min", "(max) - (min)"), ("tree-eq", "1 + min", "1 + (min)"),
+    ("reject", "1 2 +", None), ("reject", "+ 1 2", None), ("reject", "1 + 2 3 *", None), ("reject", "1 + select 2", None),
+    ("reject", "1 ) ( | 2", None), ("reject", ")(", None), ("reject", "1 ) ( + 2", None),
+]
 
 
 def parse_reqs(exprs):
@@ -524,23 +526,24 @@ def check_known(chk):
     o = [eval_obs(r) for r in rs]
     if o[2][0] == "ok" and (o[0] != o[2] or o[1] != o[2]):
         chk.known_finding("sub-number", "`3-1` -> %s, `3 -1` -> %s, `3 - 1` -> ok" % (o[0][0], o[1][0]))
-    # tab-path
-    rs = vlib.yqh_batch([eval_req(".a\t| .b", doc), eval_req(".a | .b", doc)])
-    o = [eval_obs(r) for r in rs]
-    if o[0] != o[1]:
-        chk.known_finding("tab-path", "`.a<TAB>| .b` differs from `.a | .b`")
-    # minmax-prec
-    rs = vlib.yqh_batch(parse_reqs([". | min == 1", ". | ((min) == 1)", "min == 1"]))
-    c = [impl_class(r) for r in rs]
-    if c[0] != c[1] or c[2].startswith("ERR"):
-        chk.known_finding("minmax-prec", "`. | min == 1` parses as %s" % c[0])
-    # postfix-accepted / close-open-accepted
-    rs = vlib.yqh_batch(parse_reqs(["1 2 +", "1 ) ( | 2"]))
-    c = [impl_class(r) for r in rs]
-    if not c[0].startswith("ERR"):
-        chk.known_finding("postfix-accepted", "`1 2 +` is accepted as %s" % c[0])
-    if not c[1].startswith("ERR"):
-        chk.known_finding("close-open-accepted", "`1 ) ( | 2` is accepted as %s" % c[1])
+    # the repaired findings must stay repaired
+    for kind, a, b in FIXED_CASES:
+        if kind == "eval-eq":
+            rs = vlib.yqh_batch([eval_req(a, doc), eval_req(b, doc)])
+            chk.count(("fixed", a), nontrivial=True)
+            if eval_obs(rs[0]) != eval_obs(rs[1]) or eval_obs(rs[0])[0] != "ok":
+                chk.violation({"kind": "eval", "expr_a": a, "expr_b": b, "doc": doc}, True, "a TAB between tokens changes the result (regression of a repaired finding)")
+        elif kind == "tree-eq":
+            rs = vlib.yqh_batch(parse_reqs([a, b]))
+            c = [impl_class(r) for r in rs]
+            chk.count(("fixed", a), nontrivial=True)
+            if c[0] != c[1] or c[0].startswith("ERR"):
+                chk.violation({"kind": "tree", "expr": a, "expected": c[1], "impl": c[0]}, True, "min/max do not parse as operands (regression of a repaired finding)")
+        else:
+            r = vlib.yqh_batch(parse_reqs([a]))[0]
+            chk.count(("fixed", a), nontrivial=True)
+            if not impl_class(r).startswith("ERR:"):
+                chk.violation({"kind": "reject", "expr": a, "mutation": "fixed-finding", "impl": impl_class(r)}, True, "a malformed expression is accepted (regression of a repaired finding)")
 
 
 def ctoks(ls):
@@ -716,7 +719,7 @@ def run(chk):
                 seen[key] = -1
                 mcases.append((key, im.encode()))
                 morig.append(("rej", s))
-    # permuted (postfix-style / close-before-open) inputs: the recorded findings; the model must agree on acceptance
+    # permuted (postfix-style / close-before-open) inputs: must be rejected (repaired findings); the model must agree on the error class
     perm = []
     for t in base_terms[:150 if not thorough else 1500]:
         if t[0] != "bin":
@@ -736,11 +739,7 @@ def run(chk):
         dist["perm/" + kind] = dist.get("perm/" + kind, 0) + 1
         if not im.startswith("ERR:"):
             accepted[kind] += 1
-            key = "close-open-accepted" if kind == "close-open" else "postfix-accepted"
-            if chk.is_known(key):
-                chk.known_finding(key, s)
-            else:
-                chk.violation({"kind": "reject", "expr": s, "mutation": kind, "impl": im}, True, "a malformed expression (%s order) is accepted" % kind)
+            chk.violation({"kind": "reject", "expr": s, "mutation": kind, "impl": im}, True, "a malformed expression (%s order) is accepted" % kind)
         key = ctoks(ls2)
         if key not in seen and im != "ERR:lexer":
             seen[key] = -1
